@@ -6,12 +6,16 @@ from .report import AnalysisError
 from .rules_alias import MUTATORS
 
 
+# removing entries from a cache changes no result (the entry is recomputed): eviction is not misuse
+EVICTION = {"pop", "popitem", "clear", "move_to_end"}
+
+
 def _mutable_value(v):
     if isinstance(v, (ast.Dict, ast.List, ast.Set, ast.ListComp, ast.DictComp, ast.SetComp)):
         return True
     if isinstance(v, ast.Call):
         name = ast.unparse(v.func).split(".")[-1]
-        return name not in ("int64", "int8", "Literal", "TypeVar", "namedtuple", "frozenset", "tuple", "IntEnum")
+        return name not in ("int64", "int8", "Literal", "TypeVar", "namedtuple", "frozenset", "tuple", "IntEnum", "getLogger", "compile", "MappingProxyType", "range")
     return False
 
 
@@ -60,7 +64,7 @@ def A1_inventory(rep, flow):
                             base = base.value
                         if isinstance(base, ast.Attribute) and base.attr in class_names:
                             rep.finding("A1", f"{f.fq}:{pyfacts.norm_stmt(n)}", f"{pyfacts.where(f, n)}: class-level table .{base.attr} is written [{pyfacts.norm_stmt(n)}]: all later calls see the change")
-                if isinstance(n, ast.Call) and isinstance(n.func, ast.Attribute) and n.func.attr in MUTATORS:
+                if isinstance(n, ast.Call) and isinstance(n.func, ast.Attribute) and n.func.attr in MUTATORS and n.func.attr not in EVICTION:
                     base = n.func.value
                     while isinstance(base, ast.Subscript):
                         base = base.value
